@@ -8,6 +8,9 @@
    extracted Coq string type *)
 type ostring = string
 open Model
+(* the extracted model defines its own [string] (Coq.Strings.String) as soon as
+   a model file uses a string literal; keep OCaml's here *)
+type string = Stdlib.String.t
 
 let rec pos_of_bits (s : ostring) (i : int) (acc : positive option) : positive option =
   (* s is a string of '0'/'1', most significant first *)
